@@ -276,3 +276,48 @@ Theorem C09_forged_bytes_rejected :
   forall (s : bytes) (k : jwk), verify_jws_bytes s k false = false.
 Proof. exact forged_bytes_rejected. Qed.
 Print Assumptions C09_forged_bytes_rejected.
+
+From SV Require Import Jws.Detached.
+Local Close Scope Z_scope.
+
+(* the detached-payload option (WithJWSDetachedPayload): acceptance means that the signature primitive accepted the signing input built from the header and the payload THE CALLER SUPPLIED; the payload segment plays no role (harness: cases detached:*, real verifier called through the hook verifhooks.VerifyJWSDetached) *)
+Theorem C09_detached_payload_sound :
+  forall (s : Bytes.bytes) (d : list Byte.byte) (hf : Compact.hdr_facts) 
+           (k : Compact.jwk) (crypto_ok : bool),
+         d <> [] ->
+         verify_jws_detached s d hf k crypto_ok = true ->
+         exists h p g sig msg : Bytes.bytes,
+           Compact.split_dots s = [h; p; g] /\
+           B64.b64_decode g = Some sig /\
+           sig <> [] /\
+           Compact.signing_input hf d = Some msg /\ crypto_ok = true /\ Compact.jwk_decodes k = true.
+Proof. exact detached_sound. Qed.
+Print Assumptions C09_detached_payload_sound.
+
+(* under the option the verdict does not depend on the payload segment (empty, another payload, not base64url) *)
+Theorem C09_detached_payload_ignores_segment :
+  forall (h p p' g d : list Byte.byte) (hf : Compact.hdr_facts) (k : Compact.jwk)
+           (crypto_ok : bool),
+         d <> [] ->
+         ~ In Compact.dot h ->
+         ~ In Compact.dot p ->
+         ~ In Compact.dot p' ->
+         ~ In Compact.dot g ->
+         verify_jws_detached (h ++ [Compact.dot] ++ p ++ [Compact.dot] ++ g) d hf k crypto_ok =
+         verify_jws_detached (h ++ [Compact.dot] ++ p' ++ [Compact.dot] ++ g) d hf k crypto_ok.
+Proof. exact detached_ignores_segment. Qed.
+Print Assumptions C09_detached_payload_ignores_segment.
+
+(* a signature the primitive refuses is refused, whatever segment and detached payload *)
+Theorem C09_detached_forged_rejected :
+  forall (s d : Bytes.bytes) (hf : Compact.hdr_facts) (k : Compact.jwk),
+         verify_jws_detached s d hf k false = false.
+Proof. exact detached_forged_rejected. Qed.
+Print Assumptions C09_detached_forged_rejected.
+
+(* an empty detached payload is the absent option *)
+Theorem C09_detached_without_option :
+  forall (s : Bytes.bytes) (hf : Compact.hdr_facts) (k : Compact.jwk) (crypto_ok : bool),
+         verify_jws_detached s [] hf k crypto_ok = Compact.verify_jws s hf k crypto_ok.
+Proof. exact detached_without_option. Qed.
+Print Assumptions C09_detached_without_option.
